@@ -55,11 +55,19 @@ def ix_to_tok(ix):
     return ";".join(toks)
 
 
-def key_to_py(key):
+def key_to_py(key, real=False):
+    """`real`: for the implementation, an index array tagged "T:<dtype>" is given as a MyGrad tensor and one tagged "L" as
+    a Python list (the NumPy / dual-number twins index with the plain array)"""
     if key[0] == "b":
         return ix_to_py(key[1])
     if key[0] == "a":
-        return np.array(key[1], dtype=key[2])
+        dt = key[2]
+        if dt == "L":
+            return list(key[1]) if real else np.array(key[1], dtype="int64")
+        if dt.startswith("T:"):
+            a = np.array(key[1], dtype=dt[2:])
+            return mg.tensor(a) if real else a
+        return np.array(key[1], dtype=dt)
     if key[0] == "m":
         return np.array(key[1], dtype=bool).reshape(key[2])
     raise ValueError(key)
@@ -244,7 +252,7 @@ class RealExec:
         elif k == "take":
             v[st[1]] = mg_getitem(self.operand(st[2]), np.array(st[3], dtype=st[4]), st[5])
         elif k == "set":
-            v[st[1]][key_to_py(st[2])] = self.operand(st[3])
+            v[st[1]][key_to_py(st[2], real=True)] = self.operand(st[3])
         elif k == "aug":
             t = v[st[1]]
             o = self.operand(st[3])
@@ -923,6 +931,8 @@ class Gen:
                 if rng.random() < 0.5 and len(idx) > 1:
                     idx[-1] = idx[0]  # force a repeat
                 dt = rng.choice(["int64", "int32", "int16"]) if any(i < 0 for i in idx) else rng.choice(["int64", "int32", "int8", "uint8"])
+                if rng.random() < 0.3:
+                    dt = rng.choice(["T:int64", "T:int32", "L"])  # the index array as a MyGrad tensor / a Python list
                 key = ["a", idx, dt]
                 sel = (len(idx),) + st[1:]
             else:
